@@ -1110,7 +1110,7 @@ func c02SharedLockerCase(c *mon.Case) {
 	default:
 		lk, name = rw.RLocker(), "RWMutex.RLocker"
 	}
-	n, per := 2+r.IntN(5), 300+r.IntN(500)
+	n, per := 2+r.IntN(7), 1500+r.IntN(2500)
 	var panics atomic.Int64
 	var firstPanic atomic.Value
 	var inside atomic.Int64
@@ -1130,7 +1130,7 @@ func c02SharedLockerCase(c *mon.Case) {
 					if v := inside.Add(1); v != 1 && kind != 2 {
 						c.Violate("waiters", "locker-conflicting-holders", "%s shared by %d goroutines: %d goroutines are between Lock and Unlock", name, n, v)
 					}
-					if i%8 == 0 {
+					if i%64 == 0 {
 						runtime.Gosched()
 					}
 					inside.Add(-1)
